@@ -86,22 +86,26 @@ class _CrashNow(BaseException):
 
 
 class _DyingConn:
-    """A private-database connection that dies after `left` statements, at the latest right before COMMIT."""
+    """A private-database connection that dies once `j` statements of the batch have been executed: on the next
+    statement, or on the COMMIT that would make the j-th statement durable (`j` is at most the number of statements
+    of the batch, so the one COMMIT that ends the batch is never reached; a COMMIT issued earlier passes)."""
 
-    def __init__(self, conn, left):
-        self._c, self._left = conn, left
+    def __init__(self, conn, j):
+        self._c, self._j, self._done = conn, j, 0
 
     def executemany(self, *a, **k):
-        if self._left <= 0:
+        if self._done >= self._j:
             raise _CrashNow()
-        self._left -= 1
+        self._done += 1
         return self._c.executemany(*a, **k)
 
     def execute(self, *a, **k):
         return self._c.execute(*a, **k)
 
     def commit(self):
-        raise _CrashNow()
+        if self._done >= self._j:
+            raise _CrashNow()
+        return self._c.commit()
 
     def rollback(self):
         return self._c.rollback()
@@ -780,19 +784,29 @@ class Run:
             if j is None:
                 raise _CrashNow()
             dao = mgr.pri_dao
+            orig_exec = dao.execute_queued_items
 
-            def connect():
-                if dao.conn is None:
-                    dao.conn = _DyingConn(sqlite3.connect(dao.db_file_name, timeout=dao.CONN_TIMEOUT), int(j))
-                elif not isinstance(dao.conn, _DyingConn):
-                    # a connection left open by an earlier SELECT (history look-ups): the same connection dies
-                    dao.conn = _DyingConn(dao.conn, int(j))
-                return dao.conn
-            dao.connect = connect
+            def execute_queued_items():
+                # the batch about to be executed: per table one statement per DELETE / UPDATE template, one for the INSERTs
+                n = sum(len(t.delete_queues) + (1 if t.insert_queue else 0) + len(t.update_queues)
+                        for t in dao.tables.values())
+                j_eff = min(int(j), n)
+
+                def connect():
+                    if dao.conn is None:
+                        dao.conn = _DyingConn(sqlite3.connect(dao.db_file_name, timeout=dao.CONN_TIMEOUT), j_eff)
+                    elif not isinstance(dao.conn, _DyingConn):
+                        # a connection left open by an earlier SELECT (history look-ups): the same connection dies
+                        dao.conn = _DyingConn(dao.conn, j_eff)
+                    return dao.conn
+                dao.connect = connect
+                return orig_exec()
+            dao.execute_queued_items = execute_queued_items
             try:
                 counted(*a, **kw)
             finally:
                 dao.__dict__.pop('connect', None)
+                dao.__dict__.pop('execute_queued_items', None)
             raise _CrashNow()       # nothing was queued: the (empty) transaction is the boundary itself
         mgr.process_queued_ops = process_queued_ops
         crashed = False
